@@ -9,7 +9,7 @@ NOT_YET = "check not built yet (work in progress); see DESIGN.md section 6 for t
 NA = {}
 
 # checks still being built (their files may already be in the tree): not claimed yet
-WIP = {"C09"}
+WIP = set()
 
 CHECKS = {}
 for _p in ALL:
